@@ -3,6 +3,7 @@ package main
 // Concretizer: abstract (resolved) operations of Applier.tla -> real anchored operations.
 
 import (
+	"bytes"
 	"encoding/json"
 	"fmt"
 	"github.com/trustbloc/sidetree-go/pkg/hashing"
@@ -47,6 +48,9 @@ type ROp struct {
 
 	// set by the harness from a configuration record, never by the specification
 	KeyNonce bool `json:"keynonce,omitempty"`
+	// ForceWay > 0: the concrete shape of this operation's failure classes is shape ForceWay-1 (modulo the
+	// number of shapes) instead of the one picked by rotation
+	ForceWay int `json:"forceway,omitempty"`
 }
 
 func (o *ROp) key() string {
@@ -57,6 +61,10 @@ func (o *ROp) key() string {
 // way picks one of n concrete shapes of a failure class for this operation (stable per operation, varied
 // across the operations of a run).
 func (o *ROp) way(n int) int {
+	if o.ForceWay > 0 {
+		return (o.ForceWay - 1) % n
+	}
+
 	h := fnv.New32a()
 	h.Write([]byte(o.key()))
 
@@ -329,6 +337,15 @@ func (c *Concretizer) variants(o *ROp) int {
 }
 
 func (c *Concretizer) anchored(o *ROp, req []byte) *operation.AnchoredOperation {
+	// a third of the anchored requests are spelled with insignificant white space (whatever bytes were anchored
+	// are the operation: nobody may tidy them up in place)
+	if o.way(3) == 2 {
+		var buf bytes.Buffer
+		if json.Indent(&buf, req, "", "  ") == nil {
+			req = buf.Bytes()
+		}
+	}
+
 	return &operation.AnchoredOperation{
 		Type:                 operation.Type(o.Type),
 		UniqueSuffix:         testSuffix,
@@ -430,7 +447,21 @@ func (c *Concretizer) buildRequest(o *ROp, variant int) ([]byte, int) {
 
 	delta := c.buildDelta(o)
 
-	var deltaHash string
+	var (
+		deltaHash   string
+		shadowDelta map[string]interface{}
+	)
+
+	// appendShadow adds the member "Delta" after all others (see the unbound-delta shapes below)
+	appendShadow := func(raw []byte) []byte {
+		if shadowDelta == nil || len(raw) == 0 || raw[len(raw)-1] != '}' {
+			return raw
+		}
+
+		sh, _ := json.Marshal(shadowDelta)
+
+		return append(append(append(raw[:len(raw)-1:len(raw)-1], `,"Delta":`...), sh...), '}')
+	}
 
 	{
 		var dv interface{} = delta
@@ -446,7 +477,17 @@ func (c *Concretizer) buildRequest(o *ROp, variant int) ([]byte, int) {
 		if !o.Dhash && delta != nil {
 			right := refHash(alg, refJCSSimple(delta))
 
-			switch o.way(5) {
+			switch o.way(6) {
+			case 5:
+				// the signed hash IS the hash of the "delta" member, but a member "Delta" follows it: the JSON decoder
+				// matches member names case-insensitively and the last one wins, so the delta of this request is
+				// the other one - which nobody signed
+				if o.Dv == "ok" {
+					deltaHash = refModelHash(delta, alg)
+					sh := deepCopyGeneric(generic(delta)).(map[string]interface{})
+					sh["patches"] = append(sh["patches"].([]interface{}), generic(jsonPatch(map[string]interface{}{"op": "add", "path": "/shadow", "value": 1})))
+					shadowDelta = sh
+				}
 			case 1:
 				if r := respell(refModelHash(delta, alg)); r != refModelHash(delta, alg) {
 					deltaHash = r
@@ -525,7 +566,7 @@ func (c *Concretizer) buildRequest(o *ROp, variant int) ([]byte, int) {
 
 		raw, _ := json.Marshal(req)
 
-		return raw, 1
+		return appendShadow(raw), 1
 	}
 
 	// ---- signed operations -----------------------------------------------------
@@ -594,7 +635,18 @@ func (c *Concretizer) buildRequest(o *ROp, variant int) ([]byte, int) {
 	case "deactivate":
 		signed["didSuffix"] = testSuffix
 		if !o.Sfx {
-			signed["didSuffix"] = "EiAnotherSuffixAnotherSuffixAnotherSuffixAnoth"
+			// the signed suffix is not the request's: another suffix, no suffix member at all (the shape of the
+			// signed data of a recover), an empty string
+			switch o.way(3) {
+			case 0:
+				signed["didSuffix"] = "EiAnotherSuffixAnotherSuffixAnotherSuffixAnoth"
+			case 1:
+				delete(signed, "didSuffix")
+				signed["deltaHash"] = deltaHash
+				signed["recoveryCommitment"] = recCommit
+			case 2:
+				signed["didSuffix"] = ""
+			}
 		}
 
 		// the signed data of every other deactivate also carries a revealValue member (a field of the model that
@@ -709,7 +761,7 @@ func (c *Concretizer) buildRequest(o *ROp, variant int) ([]byte, int) {
 
 	raw, _ := json.Marshal(req)
 
-	return raw, nVariants
+	return appendShadow(raw), nVariants
 }
 
 // tamperJWS applies concrete instance `variant` of tamper class `kind` to a valid compact
